@@ -165,7 +165,6 @@ infeasible("text", "ValueError", "dns.message.Message.section_number", "the sect
 infeasible("text", "dns.name.AbsoluteConcatenation", "dns.name.Name.concatenate", "derelativize only concatenates relative names")
 infeasible("text", "ValueError", "dns.ttl.make", "TTL values come from dns.ttl.from_text (ints)")
 for _e in ("dns.rdata.from_text", "dns.rdataset.from_text_list", "dns.rrset.from_text_list", "dns.zone.from_text", "dns.zonefile.read_rrsets", "dns.ttl.from_text", "dns.name.from_text", "dns.name.from_unicode"):
-    infeasible("text", "*", "dns.enum.IntEnum.*", "class/type/TTL mnemonics reach IntEnum.make() only as API arguments of this entry point (zone files convert unknown mnemonics to SyntaxError in _rr_line/_generate_line)", entry=_e)
     infeasible("text", "*", "dns.rdatatype.RdataType._extra_from_text", "reached only through IntEnum.from_text on API arguments", entry=_e)
 infeasible("*", "dns.name.NoIDNA2008", "*", "environment: raised only when the optional idna package is missing and IDNA 2008 was requested")
 infeasible("text", "dns.tokenizer.UngetBufferFull", "*", "the tokenizer ungets at most one token/character between gets (internal protocol)")
@@ -185,6 +184,13 @@ def _known(entry, exc, func):
     return None
 
 
+# call sites whose argument is already a validated enum member on every parse path (one line of reason each)
+TRUSTED_SITES = {
+    ("dns.rdata.get_rdata_class", "dns.rdataclass.to_text"): "rdclass was produced by RdataClass.make()/from_text() in every caller (dns.rdata.from_text, from_wire_parser); to_text of a member cannot fail its range check",
+    ("dns.rdata.get_rdata_class", "dns.rdatatype.to_text"): "rdtype was produced by RdataType.make()/from_text() in every caller",
+}
+
+
 def build(model):
     R = Resolver(model)
     R.hints_field.update(FIELD_HINTS)
@@ -201,6 +207,15 @@ def build(model):
     }
     E = Escape(model, R, ZONE, dyn)
     E.guard = make_guard(model)
+
+    def _api_arg_normalisation(f, call):
+        """`<Enum>.make(p)` with p a parameter of the enclosing function normalises an argument the CALLER of the API supplied (rdclass=, rdtype=, ...):
+        what it raises for a bad argument is the documented API contract, not the outcome of parsing untrusted input."""
+        if (f.qualname, src(call.func)) in TRUSTED_SITES:
+            return True
+        return isinstance(call.func, ast.Attribute) and call.func.attr == "make" and len(call.args) == 1 and not call.keywords \
+            and isinstance(call.args[0], ast.Name) and call.args[0].id in f.params()
+    E.trusted_call = _api_arg_normalisation
     return R, E
 
 
